@@ -43,6 +43,41 @@ var factUnits = []FactUnit{
 		Tracked: []string{"summary.*", "totalLines", "groupCount", "linesInThousands", "groupDensity"},
 	},
 	{
+		Name:    "CxSummaryFacts",
+		File:    "service/complexity_service.go",
+		Funcs:   []string{"filterFunctions", "generateSummary", "calculateRiskLevel"},
+		Tracked: []string{"totalComplexity", "maxComplexity", "minComplexity", "lowCount", "mediumCount", "highCount", "complexityDist[distKey]", "avgComplexity", "filtered", "complexity", "distKey"},
+		Loops:   true,
+	},
+	{
+		Name:    "DeadSummaryFacts",
+		File:    "service/dead_code_service.go",
+		Funcs:   []string{"filterFiles", "filterFindingsBySeverity", "generateSummary"},
+		Tracked: []string{"summary.*", "filtered", "filteredFunctions", "filteredFile.*", "filteredFile"},
+		Loops:   true,
+	},
+	{
+		Name:    "CBOSummaryFacts",
+		File:    "service/cbo_service.go",
+		Funcs:   []string{"filterClasses", "generateSummary"},
+		Tracked: []string{"summary.*", "filtered", "totalCBO", "maxCBO", "minCBO", "lowCount", "mediumCount", "highCount", "cboDistribution[cboRange]", "cboDist[key]"},
+		Loops:   true,
+	},
+	{
+		Name:    "LCOMSummaryFacts",
+		File:    "service/lcom_service.go",
+		Funcs:   []string{"filterClasses", "generateSummary"},
+		Tracked: []string{"summary.*", "filtered", "totalLCOM", "maxLCOM", "minLCOM", "lowCount", "mediumCount", "highCount"},
+		Loops:   true,
+	},
+	{
+		Name:    "CloneStatsFacts",
+		File:    "service/clone_service.go",
+		Funcs:   []string{"createStatistics"},
+		Tracked: []string{"stats.*", "totalSimilarity", "typeStr"},
+		Loops:   true,
+	},
+	{
 		Name:    "ConfigFacts",
 		File:    "internal/config/toml_loader.go",
 		Funcs:   []string{"ResolveConfigPath", "FindConfigFileFromPath"},
